@@ -6,11 +6,15 @@
       init: 1        (pad)                  -- SimpleEventSequence(pad_event=pad)
             2,3,4,5  ()                     -- Cls()
             6        (start minp maxp)      -- PianorollSequence(steps_per_quarter=4, start_step, min_pitch, max_pitch)
-            7        (start max_shift)      -- Performance(steps_per_second=100, start_step, max_shift_steps)
+            7        (start max_shift kind) -- kind 0: Performance(steps_per_second=100, start_step, max_shift_steps)
+                                               kind 1: MetricPerformance with steps_per_quarter * max_shift_quarters = max_shift
       ops : list of (code args...), see the decoders below.
     output : one observation per op:
-      (outcome events start end len steps index)
-      with index = [obj[i] for i in -len-1 .. len], IndexError as (). *)
+      (outcome events start end len steps index extra...)
+      with index = [obj[i] for i in -len-1 .. len], IndexError as ();
+      extra = (steps_per_bar steps_per_quarter) for classes 1-5, then for the
+      LeadSheet its melody events, chord events and the chords' (start end);
+      num_steps for classes 6, 7. *)
 From Coq Require Import ZArith List Bool.
 From NS Require Import Base.Sx Gen.G17 Model.Events Model.EventsPoly.
 Import ListNotations.
@@ -54,7 +58,7 @@ Section SimpleWire.
   Definition oObs (so : st E * outcome) : sx :=
     let s := fst so in
     L [oOutcome (snd so); L (map oE (iter s)); I (start s); I (stop s); I (len s);
-       oZs (steps s); index_probe (getitem s) oE (len s)].
+       oZs (steps s); index_probe (getitem s) oE (len s); L [I (spb s); I (spq s)]].
 End SimpleWire.
 
 Definition xDrum (s : sx) : list Z := xZs s.
@@ -82,6 +86,7 @@ Definition oLsObs (so : LeadSheet.ls * outcome) : sx :=
   L [oOutcome (snd so); L (map oPairZ (LeadSheet.iter s)); I (LeadSheet.start s); I (LeadSheet.stop s);
      I (LeadSheet.len s); oZs (LeadSheet.steps s);
      index_probe (LeadSheet.getitem s) oPairZ (LeadSheet.len s);
+     L [I (spb (LeadSheet.mel s)); I (spq (LeadSheet.mel s))];
      (* the two wrapped sequences, so that lock step is observed and not inferred *)
      oZs (events (LeadSheet.mel s)); oZs (events (LeadSheet.chd s));
      L [I (start (LeadSheet.chd s)); I (stop (LeadSheet.chd s))]].
